@@ -347,20 +347,19 @@ def run(tier: str, seed: int) -> int:
         ("val-norm-2all", consts(1, {"norm_2all"}, xname="pythall")),
         ("val-mixed-2hooks", consts(2, {"clamp_a", "norm_1row", "norm_infcol"} if quick else
                                     {"clamp_a", "clamp_lo", "norm_1row", "norm_infcol", "norm_1all_p", "state_pre"},
-                                    xname="int", depth=4 if quick else 6)),
+                                    xname="int", depth=3 if quick else 6)),
     ]
     if not quick:
         mc.append(("life-2hooks-counted-d6", consts(2, {"hook_both", "ctx_pre", "state_post", "state_pre_p"},
                                                     {"TT", "TF"}, cf=True, depth=6)))
     ex = ThreadPoolExecutor(max_workers=5)
-    mcf = submit_mc(ex, mc)
 
     # ---- A
     gens = [
         ("g-life-1hook", consts(1, PROBES, {"TT", "TF", "FT"}), None),
         ("g-life-2hooks", consts(2, {"hook_both", "ctx_pre", "state_post_p"} if quick else
                                  {"hook_both", "hook_pre_p", "ctx_post", "state_pre", "state_post_p"}),
-         12000 if quick else None),
+         9000 if quick else None),
         ("g-counted", consts(1, {"hook_both", "ctx_post", "state_pre"}, {"TT"}, cf=True, depth=4 if quick else 6),
          4000 if quick else None),
         ("g-val-1", consts(1, {"clamp_a", "clamp_lo", "clamp_hi_p", "norm_1row", "norm_1all_p", "norm_infcol",
@@ -370,7 +369,8 @@ def run(tier: str, seed: int) -> int:
         ("g-val-mixed", consts(2, {"clamp_a", "norm_1row"} if quick else {"clamp_a", "norm_1row", "norm_infcol"},
                                xname="int", depth=3 if quick else 4), 6000 if quick else 60000),
     ]
-    genf = [ex.submit(run_gen, name, c) for name, c, _ in gens]
+    genf = [ex.submit(run_gen, name, c) for name, c, _ in gens]     # first: the replays wait for them
+    mcf = submit_mc(ex, mc)
     first = None
     for (name, c, budget), f in zip(gens, genf):
         g = gen_graph(chk, name, c, f.result())
